@@ -31,7 +31,7 @@ ASSUMPTIONS = ["heaps are created by NewWritableFractalHeap and reloaded into a 
 MAXOBJ = 65536
 OVERHEAD = 19           # prefix 15 + checksum 4 (the repaired capacity rule)
 CAP = "cap_new"
-COUNTS = {"quick": (900, 10), "thorough": (20000, 140)}   # random histories: small blocks, blocks >= 16 KiB
+COUNTS = {"quick": (700, 8), "thorough": (20000, 140)}   # random histories: small blocks, blocks >= 16 KiB
 
 
 def usable(bs):
